@@ -134,6 +134,91 @@ theorem code_settlement_err_model_refuses (s : St) (cfg : K.VaultConfig) (old lo
     rw [this]
     rfl
 
+/-- **`GetPaybackAmount`** (the query a borrower reads before repaying): the stretch of `get_payback_amount` between
+    the configuration load and the response equals the model's `payback` — the loan amount plus the three fees of
+    `fee` — for every valid configuration and `Uint128` amount; `Err` exactly when the sum leaves 128 bits. -/
+theorem gen_vault_payback_amount_eq_model (cfg : K.VaultConfig) (amount : Nat)
+    (hp : cfg.fees.protocol_fee.share < E18) (hf : cfg.fees.flash_loan_fee.share < E18)
+    (hb : cfg.fees.burn_fee.share < E18) (hl : amount ≤ U128MAX) :
+    K.vault_payback_amount cfg amount =
+      (if amount + fee cfg.fees.protocol_fee.share amount + fee cfg.fees.flash_loan_fee.share amount
+            + fee cfg.fees.burn_fee.share amount ≤ U128MAX
+       then .ok (fee cfg.fees.protocol_fee.share amount, fee cfg.fees.flash_loan_fee.share amount,
+                 fee cfg.fees.burn_fee.share amount,
+                 amount + fee cfg.fees.protocol_fee.share amount + fee cfg.fees.flash_loan_fee.share amount
+                   + fee cfg.fees.burn_fee.share amount)
+       else .err) := by
+  unfold K.vault_payback_amount
+  have e1 := compute_narrow cfg.fees.protocol_fee amount hp hl
+  have e2 := compute_narrow cfg.fees.flash_loan_fee amount hf hl
+  have e3 := compute_narrow cfg.fees.burn_fee amount hb hl
+  generalize fee cfg.fees.protocol_fee.share amount = p at *
+  generalize fee cfg.fees.flash_loan_fee.share amount = f at *
+  generalize fee cfg.fees.burn_fee.share amount = b at *
+  rw [← Res.bind_assoc', e1, Res.bind_ok_s, ← Res.bind_assoc', e2, Res.bind_ok_s, ← Res.bind_assoc', e3,
+    Res.bind_ok_s]
+  unfold cadd
+  by_cases h1 : amount + p ≤ U128MAX
+  · rw [if_pos h1, Res.bind_ok_s]
+    by_cases h2 : amount + p + f ≤ U128MAX
+    · rw [if_pos h2, Res.bind_ok_s]
+      by_cases h3 : amount + p + f + b ≤ U128MAX
+      · rw [if_pos h3, Res.bind_ok_s, if_pos h3]; rfl
+      · rw [if_neg h3, Res.bind_err_s, if_neg h3]
+    · rw [if_neg h2, Res.bind_err_s, if_neg (fun h => h2 (by omega))]
+  · rw [if_neg h1, Res.bind_err_s, if_neg (fun h => h1 (by omega))]
+
+/-- the model's `payback` IS the code's payback amount, for a model state with a valid fee record -/
+theorem payback_is_code_payback (s : St) (cfg : K.VaultConfig) (amount : Nat)
+    (hp : cfg.fees.protocol_fee.share = s.fees.prot) (hf : cfg.fees.flash_loan_fee.share = s.fees.flash)
+    (hb : cfg.fees.burn_fee.share = s.fees.burn) (hv : s.fees.valid = true) (hl : amount ≤ U128MAX)
+    (hfit : payback s amount ≤ U128MAX) :
+    K.vault_payback_amount cfg amount =
+      .ok (fee s.fees.prot amount, fee s.fees.flash amount, fee s.fees.burn amount, payback s amount) := by
+  unfold VFees.valid at hv
+  simp only [Bool.and_eq_true, decide_eq_true_eq] at hv
+  unfold payback at hfit
+  rw [gen_vault_payback_amount_eq_model cfg amount (by omega) (by omega) (by omega) hl, hp, hf, hb, if_pos hfit]
+  rfl
+
+/-- **`Decimal::from_ratio(amount, total_share) * total_asset_amount`** of the vault's `withdraw`, closed form for ALL
+    inputs: panics for an empty share supply, for a ratio above the `Decimal` range and for a product above 128 bits;
+    otherwise the doubly floored `total · ⌊amount·10¹⁸ / supply⌋ / 10¹⁸`. -/
+theorem gen_vault_withdraw_amount_eq_model (amount sup total : Nat) :
+    K.vault_withdraw_amount amount sup total =
+      (if sup = 0 then .panic
+       else if amount * E18 / sup ≤ U128MAX then
+         (if total * (amount * E18 / sup) / E18 ≤ U128MAX then .ok (total * (amount * E18 / sup) / E18) else .panic)
+       else .panic) := by
+  unfold K.vault_withdraw_amount dec128FromRatio mulRatioP u128MulDec
+  by_cases h0 : sup = 0
+  · rw [if_pos h0, if_pos h0]; rfl
+  · rw [if_neg h0, if_neg h0]
+    by_cases h1 : amount * E18 / sup ≤ U128MAX
+    · rw [if_pos h1, if_pos h1, Res.bind_ok_s]
+    · rw [if_neg h1, if_neg h1]; rfl
+
+/-- the `Share` query computes the same expression as `withdraw` (ALL inputs) -/
+theorem gen_vault_share_query_amount_eq_model (amount sup total : Nat) :
+    K.vault_share_query_amount amount sup total = K.vault_withdraw_amount amount sup total := rfl
+
+/-- **Tie to the state machine:** what the real `withdraw` pays for `lp ≤ supply` shares of a vault whose balance fits
+    128 bits is the model's `shareOf` (no panic is reachable there). -/
+theorem shareOf_is_code_withdraw_amount (s : St) (lp : Nat) (hs : s.sup ≠ 0) (hlp : lp ≤ s.sup)
+    (hb : s.bal ≤ U128MAX) :
+    K.vault_withdraw_amount lp s.sup (s.bal - s.pend) = .ok (shareOf s lp) := by
+  have hr : lp * E18 / s.sup ≤ E18 := by
+    apply Nat.div_le_of_le_mul
+    rw [Nat.mul_comm s.sup E18, Nat.mul_comm lp E18]
+    exact Nat.mul_le_mul_left E18 hlp
+  have h1 : lp * E18 / s.sup ≤ U128MAX := Nat.le_trans hr (by decide)
+  have h2 : (s.bal - s.pend) * (lp * E18 / s.sup) / E18 ≤ s.bal - s.pend := by
+    apply Nat.div_le_of_le_mul
+    rw [Nat.mul_comm E18 (s.bal - s.pend)]
+    exact Nat.mul_le_mul_left _ hr
+  rw [gen_vault_withdraw_amount_eq_model, if_neg hs, if_pos h1, if_pos (by omega)]
+  rfl
+
 /-- non-vacuity: a 0.1 % / 0.2 % / 0.05 % vault, balance 1 000 000 recorded, loan 500 000, repaid with 2 000 on top -/
 example :
     K.vault_after_trade_settlement
